@@ -4,6 +4,11 @@
 -/
 import StVerif.Lemmas.UtfStd
 import StVerif.Lemmas.KernelBridge
+import StVerif.Lemmas.KernelLoops
+import StVerif.Lemmas.KernelLoopsUtf32
+import StVerif.Lemmas.KernelLoopsUtf8
+import StVerif.Lemmas.KernelLoopsMisc
+import StVerif.Lemmas.KernelLoopsValidate
 
 namespace StVerif.Props.C01
 open StVerif StVerif.Utf StVerif.Generated StVerif.Lemmas.Utf
@@ -106,5 +111,23 @@ theorem kernels_are_model (ch : Nat) (mem : List Nat) :
 /-- composed with the model theorems: the translated encoder applied to a scalar is its standard UTF-8 / UTF-16 form -/
 example : Kernels.write_utf8 0x20AC = .ok ((0 : Int), [0xE2, 0x82, 0xAC]) ∧ Kernels.write_utf16 0x1F600 = .ok ((0 : Int), [0xD83D, 0xDE00]) := by
   decide
+
+open StVerif.KernelBridge in
+/-- the filling passes of include/st_utf_conv_priv.h as translated from the C++ on every run (tools/gen_kernels.py) are
+    the model's `fill` over the model's decoder, in every mode (UTF-16 sources: units below 2^16), and the translated
+    `validate_utf8` is the model's validator: the theorems of this file are about what the code says now -/
+theorem conversion_loops_are_model (mem : List Nat) (m : Mode) (subst : Bool) (fuel : Nat) (hf : mem.length < fuel) :
+    Kernels.utf16_convert_from_utf8 mem fuel 0 mem.length (modeCode m) = fillResult (fill (stepCh .utf8 .utf16 m subst) (decode .utf8 mem)) ∧
+    Kernels.utf32_convert_from_utf8 mem fuel 0 mem.length (modeCode m) = fillResult (fill (stepCh .utf8 .utf32 m subst) (decode .utf8 mem)) ∧
+    Kernels.utf8_convert_from_utf32 mem fuel 0 mem.length (modeCode m) = fillResult (fill (stepCh .utf32 .utf8 m subst) (decode .utf32 mem)) ∧
+    Kernels.utf16_convert_from_utf32 mem fuel 0 mem.length (modeCode m) = fillResult (fill (stepCh .utf32 .utf16 m subst) (decode .utf32 mem)) ∧
+    ((∀ u ∈ mem, u < 65536) →
+      Kernels.utf8_convert_from_utf16 mem fuel 0 mem.length (modeCode m) = fillResult (fill (stepCh .utf16 .utf8 m subst) (decode .utf16 mem)) ∧
+      Kernels.utf32_convert_from_utf16 mem fuel 0 mem.length (modeCode m) = fillResult (fill (stepCh .utf16 .utf32 m subst) (decode .utf16 mem))) ∧
+    Kernels.validate_utf8 mem fuel 0 mem.length = .ok ((validateUtf8 mem : Nat) : Int) :=
+  ⟨utf16_convert_from_utf8_eq mem m subst fuel hf, utf32_convert_from_utf8_eq mem m subst fuel hf,
+   utf8_convert_from_utf32_eq mem m subst fuel hf, utf16_convert_from_utf32_eq mem m subst fuel hf,
+   fun hu => ⟨utf8_convert_from_utf16_eq mem m subst hu fuel hf, utf32_convert_from_utf16_eq mem m subst hu fuel hf⟩,
+   validate_utf8_eq mem fuel hf⟩
 
 end StVerif.Props.C01
